@@ -152,6 +152,27 @@ def run_real(scn, perturb_seed=None, timeout=15.0):
                 buf.extend(d)
             return pred()
 
+        class _S:
+            """sends that stop at the first error (the server may legitimately have closed after a
+            closing request while later pipelined bytes are still being sent: EPIPE / ECONNRESET);
+            what was received until then is still read and compared"""
+
+            broken = False
+
+            def sendall(self, data):
+                if self.broken:
+                    return
+                try:
+                    raw.sendall(data)
+                except OSError as e:
+                    self.broken = True
+                    res["send_error"] = type(e).__name__
+
+            def __getattr__(self, name):
+                return getattr(raw, name)
+
+        raw = s
+        s = _S()
         try:
             if cs.get("pingpong") or cs.get("waiting"):
                 sent = 0
@@ -182,11 +203,13 @@ def run_real(scn, perturb_seed=None, timeout=15.0):
                         pos = p
                         time.sleep(0)
                 s.sendall(data[pos:])
+                if cs.get("half_close"):
+                    s.shutdown(socket.SHUT_WR)
                 expect = len(SC.expected_responses(reqs))
                 res["done"] = pump(lambda: nfinal(buf, methods)[0] >= expect)
             # if the exchange ends the connection, wait for the EOF
             last = SC.expected_responses(reqs)
-            if last and SC.closes_connection(reqs[last[-1]]) and res.get("done"):
+            if last and (SC.closes_connection(reqs[last[-1]]) or cs.get("half_close")) and res.get("done"):
                 pump(lambda: res.get("eof", False))
         except OSError as e:
             res["error"] = repr(e)
